@@ -30,9 +30,14 @@ def universe(env):
             ArrayType(BVType(2), BOOL), U, FunctionType(INT, [INT])]
 
 
-def payload_grid(nt, env, rnd):
-    """Payloads to try for a node type (None = no payload)."""
+def payload_grid(nt, env, rnd, tier="thorough"):
+    """Payloads to try for a node type (None = no payload).  The quick tier thins the extract / rotate / extend payload
+    grids: the WIDTH-BOUNDARY family walks those payloads systematically."""
     m = env.formula_manager
+    if tier == "quick" and nt == op.BV_EXTRACT:
+        return [(w, s, e) for w in (1, 8) for s in (-1, 0, 1, 7, 8) for e in (-1, 0, 7, 8)]
+    if tier == "quick" and nt in (op.BV_ROL, op.BV_ROR, op.BV_ZEXT, op.BV_SEXT):
+        return [(w, k) for w in (-1, 1, 8, 9) for k in (-1, 0, 1, 8, 9)]
     if nt in tocoq.BVOPS:
         return [(w,) for w in (1, 2, 8, 3)]
     if nt == op.BV_EXTRACT:
@@ -73,7 +78,7 @@ def raw_cases(env, rnd, tier):
     uni = universe(env)
     nts = [nt for nt in op.ALL_TYPES if nt != op.ALGEBRAIC_CONSTANT]
     for nt in nts:
-        for pay in payload_grid(nt, env, rnd):
+        for pay in payload_grid(nt, env, rnd, tier):
             combos = [()] + [(a,) for a in uni] + list(itertools.product(uni, uni))
             tri = list(itertools.product(uni, uni, uni))
             if tier == "quick":
@@ -167,6 +172,54 @@ def boundary_raw_cases(env, rnd, tier):
         yield op.BV_CONSTANT, pay, ()
 
 
+# ---- NAME-COLLISION family: user sorts whose NAMES are spelled like something else - the display string of a builtin
+#      sort, the rendering of an instantiated parametric sort of the pool, the same up to spacing / case, names of symbols
+#      and functions, the basename of a builtin sort constructor.  Every entry carries an independent structural
+#      descriptor (never derived from the name); two sorts are the same sort iff their descriptors are equal.
+COLLIDING_NAMES = ("Int", "Real", "String", "Bool", "BV{8}", "Array{Int, Int}", "Pair{Int, Int}", "Array{Int,Int}", "Pair{Int,Int}",
+                   "int", "INT", " Int", "Int ", "BV8", "Function", "S", "cs_1_0", "cfn_1", "Pair{Int, Int}{}", "U:Int")
+
+
+def collision_pool(env):
+    """[(label, pysmt type, descriptor)]"""
+    tm = env.type_manager
+    pair = tm.get_type_instance(tm.Type("Pair", 2), INT, INT)
+    pool = [("Bool", BOOL, ("Bool",)), ("Int", INT, ("Int",)), ("Real", REAL, ("Real",)), ("String", STRING, ("String",)),
+            ("BV8", BVType(8), ("BV", 8)), ("Array(Int,Int)", ArrayType(INT, INT), ("Array", ("Int",), ("Int",))),
+            ("Pair(Int,Int)", pair, ("User", "Pair", (("Int",), ("Int",))))]
+    for n in COLLIDING_NAMES:
+        pool.append(("U<%s>" % n, tm.Type(n, 0), ("User", n, ())))
+    # a user parametric sort that takes the basename of the builtin Array constructor
+    pool.append(("U<Array>/2(Int,Int)", tm.get_type_instance(tm.Type("Array", 2), INT, INT), ("User", "Array", (("Int",), ("Int",)))))
+    return pool
+
+
+def collision_rule(name, d1, d2):
+    """Descriptor of the result sort, or None when the application is ill-sorted (verdict from the descriptors only)."""
+    same = d1 == d2
+    if name in ("Equals", "NotEquals"):
+        return ("Bool",) if same and d1 != ("Bool",) else None
+    if name in ("EqualsOrIff", "AllDifferent", "Function"):
+        return ("Bool",) if same else None
+    if name == "Ite":
+        return d1 if same else None
+    if name in ("Plus", "Minus", "Times"):
+        return d1 if same and d1 in (("Int",), ("Real",)) else None
+    if name in ("LE", "LT", "GE", "GT"):
+        return ("Bool",) if same and d1 in (("Int",), ("Real",)) else None
+    if name in ("And", "Or", "Implies", "Iff"):
+        return ("Bool",) if same and d1 == ("Bool",) else None
+    if name == "StrConcat":
+        return ("String",) if same and d1 == ("String",) else None
+    if name == "BVAdd":
+        return d1 if same and d1 == ("BV", 8) else None
+    if name == "BVULT":
+        return ("Bool",) if same and d1 == ("BV", 8) else None
+    if name == "Select":
+        return d1[2] if d1[0] == "Array" and d1[1] == d2 else None
+    raise ValueError(name)
+
+
 def run(tier):
     chk = lib.Check("C03", tier)
     rnd = random.Random(chk.seed)
@@ -190,16 +243,37 @@ def run(tier):
             argsym[t] = [m.Symbol("w%d_%d" % (len(argsym), j), t) for j in range(5)]
         return argsym[t]
 
+    ncollide = 0
+
+    def collision_raw():
+        # symbols are kept per pool ENTRY (not looked up by type: a dictionary keyed by types would itself rely on type equality)
+        pool = [e for e in collision_pool(env) if e[2][:2] != ("User", "Array")]
+        syms = [[m.Symbol("n%d_%d" % (i, j), t) for j in range(3)] for i, (_, t, _) in enumerate(pool)]
+        pb = m.Symbol("n_cond", BOOL)
+        for i, (_, t1, _) in enumerate(pool):
+            fn = m.Symbol("nfn_%d" % i, FunctionType(BOOL, [t1]))
+            for j, (_, t2, _) in enumerate(pool):
+                a, b = syms[i][0], syms[j][1]
+                for nt in (op.EQUALS, op.PLUS, op.LE, op.ARRAY_SELECT):
+                    yield nt, None, (t1, t2), (a, b)
+                yield op.ITE, None, (BOOL, t1, t2), (pb, a, b)
+                yield op.FUNCTION, fn, (t2,), (b,)
+                yield op.ARRAY_STORE, None, (ArrayType(INT, INT), t1, t2), (symbols_of(ArrayType(INT, INT))[0], a, b)
+
     def all_raw():
-        nonlocal nboundary
+        nonlocal nboundary, ncollide
         for x in raw_cases(env, rnd, tier):
-            yield x
+            yield x + (None,)
         for x in boundary_raw_cases(env, rnd, tier):
             nboundary += 1
+            yield x + (None,)
+        for x in collision_raw():
+            ncollide += 1
             yield x
     chk.note("proofs built; create_node grid")
-    for nt, pay, tys in all_raw():
-        args = tuple(symbols_of(t)[j] for j, t in enumerate(tys))
+    for nt, pay, tys, args in all_raw():
+        if args is None:
+            args = tuple(symbols_of(t)[j] for j, t in enumerate(tys))
         try:
             n = m.create_node(node_type=nt, args=args, payload=pay)
             res = env.stc.get_type(n)
@@ -218,7 +292,7 @@ def run(tier):
         nodes.append(node)
         chk.count(("raw", nt, str(pay), tuple(str(t) for t in tys)))
     chk.sample({"kind": "create_node", "case": meta[len(meta) // 2]})
-    files, shard = [], 400
+    files, shard = [], 1000
     for k in range(0, len(rows), shard):
         text = ("From Coq Require Import List ZArith Bool String.\nFrom PySMT.core Require Import CaseUtil Syntax.\n"
                 "From PySMT.models Require Import TypeChecker.\nImport ListNotations.\n"
@@ -231,31 +305,41 @@ def run(tier):
         files.append((p, k, len(rows[k:k + shard])))
     from . import termcases
     chk.note("%d create_node cases (%d of the width-boundary family) written; running the model on them" % (len(rows), nboundary))
-    bad, errs = termcases.run(files)
-    chk.note("model evaluated")
-    # a disagreement is a concrete input: when the implementation ACCEPTED the application, the independent type derivation decides
-    for i in bad[:40]:
-        if meta[i][3] == "None":
-            continue
-        try:
-            t = refeval.type_of(nodes[i])
-            verdict = None if str(t) == meta[i][3] else "independent derivation gives %s" % t
-        except refeval.IllTyped as ex:
-            verdict = "independent derivation: ill-typed (%s)" % ex
-        except Exception:   # noqa: outside the reference's fragment
-            verdict = None
-        if verdict:
-            chk.violation({"kind": "input", "what": "create_node(%s, payload %s) on arguments of sorts %s is accepted with type %s; %s"
-                           % (meta[i][0], meta[i][1], meta[i][2], meta[i][3], verdict),
-                           "repro": "FormulaManager.create_node(node_type=%s, args=<symbols of sorts %s>, payload=%s)" % (meta[i][0], meta[i][2], meta[i][1])},
-                          key="raw:%s:%s:%s" % (meta[i][0], meta[i][1], ",".join(meta[i][2])))
-    chk.cov["correspondence"] = {"create_node_cases": len(rows), "width_boundary_cases": nboundary, "rejected_by_implementation": nfail,
-                                 "disagreements": len(bad), "case_file_errors": len(errs),
-                                 "examples": [meta[i] for i in bad[:6]]}
-    for i in bad[:6]:
-        chk.note("type checker model/implementation disagree on %s" % (meta[i],))
-    for e in errs[:2]:
-        chk.note("case file error: " + e["error"][-300:])
+    # the model is evaluated by coqc processes while the constructor-level grids below run
+    import threading
+    box = {}
+    worker = threading.Thread(target=lambda: box.update(r=termcases.run(files)))
+    worker.start()
+
+    def finish_raw():
+        worker.join()
+        bad, errs = box.get("r", ([], [{"error": "the case files were not run"}]))
+        chk.note("model evaluated")
+        # a disagreement is a concrete input: when the implementation ACCEPTED the application, the independent type derivation decides
+        for i in bad[:40]:
+            if meta[i][3] == "None":
+                continue
+            try:
+                t = refeval.type_of(nodes[i])
+                verdict = None if str(t) == meta[i][3] else "independent derivation gives %s" % t
+            except refeval.IllTyped as ex:
+                verdict = "independent derivation: ill-typed (%s)" % ex
+            except Exception:   # noqa: outside the reference's fragment
+                verdict = None
+            if verdict:
+                chk.violation({"kind": "input", "what": "create_node(%s, payload %s) on arguments of sorts %s is accepted with type %s; %s"
+                               % (meta[i][0], meta[i][1], meta[i][2], meta[i][3], verdict),
+                               "argument_sort_descriptors": [str(tocoq.tkey(a.get_type())) for a in nodes[i].args()],
+                               "repro": "FormulaManager.create_node(node_type=%s, args=<symbols of sorts %s>, payload=%s)" % (meta[i][0], meta[i][2], meta[i][1])},
+                              key="raw:%s:%s:%s" % (meta[i][0], meta[i][1], ",".join(meta[i][2])))
+        chk.cov["correspondence"] = {"create_node_cases": len(rows), "width_boundary_cases": nboundary, "name_collision_cases": ncollide, "rejected_by_implementation": nfail,
+                                     "disagreements": len(bad), "case_file_errors": len(errs),
+                                     "examples": [meta[i] for i in bad[:6]]}
+        for i in bad[:6]:
+            chk.note("type checker model/implementation disagree on %s" % (meta[i],))
+        for e in errs[:2]:
+            chk.note("case file error: " + e["error"][-300:])
+        return bad, errs
 
     # ------------------------------------------------------------------ constructor-level oracle
     env2 = Environment()
@@ -448,9 +532,52 @@ def run(tier):
             for t3 in (arr.elem_type, BVType(0), BVType(8)):
                 judge("Store", "(%s, %s, %s)" % (arr, t, t3), lambda: m2.Store(sym[arr][0], a, sym[t3][2]),
                       "accept" if (arr.index_type == t and arr.elem_type == t3) else "reject")
-    chk.cov["constructor_calls"] = ncalls
     chk.cov["width_boundary_constructor_calls"] = ncalls - n0
     chk.note("width-boundary constructor grid done (%d calls)" % (ncalls - n0))
+    # ---- NAME-COLLISION grid at the constructor level (fresh environment; symbols kept per pool entry)
+    n1 = ncalls
+    env4 = Environment()
+    m4 = env4.formula_manager
+    pool = collision_pool(env4)
+    csym = [[m4.Symbol("cs_%d_%d" % (i, j), t) for j in range(3)] for i, (_, t, _) in enumerate(pool)]
+    cfn = [m4.Symbol("cfn_%d" % i, FunctionType(BOOL, [t])) for i, (_, t, _) in enumerate(pool)]
+    cond = m4.Symbol("c_cond", BOOL)
+
+    def cjudge(name, l1, l2, d1, d2, thunk):
+        want = collision_rule(name, d1, d2)
+        before = len(chk.violations) + len(chk.known_hits)
+        desc = "(%s, %s)" % (l1, l2)
+        judge(name, desc, thunk, "accept" if want is not None else "reject")
+        if want is not None and len(chk.violations) + len(chk.known_hits) == before:
+            try:
+                got = tocoq.tkey(thunk().get_type())
+            except Exception:   # noqa
+                got = None
+            if got != want:
+                chk.violation({"kind": "input", "what": "%s%s: reported type %s, the rule gives %s" % (name, desc, got, want),
+                               "repro": "FormulaManager.%s on symbols of the two sorts (user sorts are declared with TypeManager.Type(<name>))" % name},
+                              key="ctortype:%s:%s" % (name, desc))
+    for i, (l1, t1, d1) in enumerate(pool):
+        for j, (l2, t2, d2) in enumerate(pool):
+            a, b = csym[i][0], csym[j][1]
+            for name in ("Equals", "NotEquals", "EqualsOrIff", "AllDifferent", "Plus", "Minus", "Times", "LE", "LT", "GE", "GT",
+                         "And", "Or", "Implies", "Iff", "StrConcat", "BVAdd", "BVULT", "Select"):
+                cjudge(name, l1, l2, d1, d2, lambda: getattr(m4, name)(a, b))
+            cjudge("Ite", l1, l2, d1, d2, lambda: m4.Ite(cond, a, b))
+            cjudge("Function", l1, l2, d1, d2, lambda: m4.Function(cfn[i], [b]))
+            # under a binder, and as the value stored into an array of the other sort
+            judge("ForAll-Equals", "(%s, %s)" % (l1, l2), lambda: m4.ForAll([a], m4.EqualsOrIff(a, b)), "accept" if d1 == d2 else "reject")
+            judge("Store", "(Array(Int,%s), Int, %s)" % (l1, l2),
+                  lambda: m4.Store(m4.Symbol("carr_%d" % i, ArrayType(INT, t1)), m4.Int(0), b), "accept" if d1 == d2 else "reject")
+    # one name, two kinds of things: a symbol may not change its sort because the two sorts are spelled alike
+    for i, (l1, t1, d1) in enumerate(pool):
+        for j, (l2, t2, d2) in enumerate(pool):
+            if d1 != d2:
+                judge("Symbol-redeclared", "(%s then %s)" % (l1, l2),
+                      lambda: (m4.Symbol("cre_%d_%d" % (i, j), t1), m4.Symbol("cre_%d_%d" % (i, j), t2))[1], "reject")
+    chk.cov["constructor_calls"] = ncalls
+    chk.cov["name_collision_constructor_calls"] = ncalls - n1
+    chk.note("name-collision constructor grid done (%d calls over %d sorts)" % (ncalls - n1, len(pool)))
     chk.sample({"kind": "constructor", "case": "Pow(BV8 symbol, BV8 constant) / BVRol(x, -1) / Ite(Bool, Int, Real) ..."})
 
     # ------------------------------------------------------------------ the parser's own sort checks
@@ -490,9 +617,13 @@ def run(tier):
                 probe = probe.arg(i)
             else:
                 break               # constant folding by the constructors (ground terms): the node reached has the same sort
-        if safe_type(probe) != c03_scripts.PYSMT[dsort]:
+        try:
+            pkey = tocoq.tkey(probe.get_type())
+        except Exception:   # noqa
+            pkey = None
+        if pkey != c03_scripts.KEY[dsort]:
             chk.violation({"kind": "input", "what": "the term %s read from the script has type %s; by the declarations it has sort %s"
-                           % (probe.serialize(), safe_type(probe), c03_scripts.PYSMT[dsort]), "script": text, "family": key, "returned": f.serialize()},
+                           % (probe.serialize(), pkey, c03_scripts.KEY[dsort]), "script": text, "family": key, "returned": f.serialize()},
                           key="parser-type:%s" % key)
             continue
         try:
@@ -537,6 +668,7 @@ def run(tier):
                 chk.violation({"kind": "input", "what": "simplify changed the type from %s to %s" % (refeval.type_of(f), t), "formula": f.serialize(), "result": h.serialize()},
                               key="simptype:%s:%s" % (refeval.type_of(f), t))
 
+    bad, errs = finish_raw()
     if (not ok or bad or errs) and not chk.violations:
         what = []
         if not ok:
@@ -548,8 +680,10 @@ def run(tier):
                       "create_node level: every operator x payload grid x argument-sort tuples over an 11-sort universe (arity 0-2 exhaustive, arity 3 "
                       "sampled in quick / exhaustive in thorough, arity 4-5 sampled for n-ary operators); constructor level: every public constructor "
                       "x sort combinations x symbol/constant variants; WIDTH-BOUNDARY family (BV widths 0,1,2,8,9,16,33,64,65,257 and array / function "
-                      "sorts over them, every ordered pair) at both levels with the verdict stated directly on the sorts; PARSER family (declared sort x "
-                      "derived sort over 8 sorts through define-fun / declared and defined applications / let / binders, ground and non-ground) against "
+                      "sorts over them, every ordered pair) at both levels with the verdict stated directly on the sorts; NAME-COLLISION family (28 sorts: builtin sorts, Pair{Int, Int} and user sorts NAMED like their renderings, "
+                      "up to spacing / case, like symbols and functions, like the Array constructor; every ordered pair x 23 constructors and 7 node types; "
+                      "verdicts from structural descriptors); PARSER family (declared sort x "
+                      "derived sort over 12 sorts (8 builtin + Pair Int Int and user sorts named |Pair{Int, Int}|, |Array{Int, Int}|, |BV{8}|) through define-fun / declared and defined applications / let / binders, ground and non-ground) against "
                       "a strict sort checker; distinct = distinct (operator, payload, sorts) / script")
 
 
